@@ -35,6 +35,8 @@ type c16Out struct {
 }
 
 func runC16(w *World, r *Report) {
+	r.Rule("shiftwidth", "no shift by a constant count that is as large as its operand's type (the value would always be 0: bits lost before widening)", 1)
+	shiftWidthRule(w, r, "shiftwidth", func(fi *FuncInfo) bool { return fi.Pkg.Types.Name() == "openflow13" })
 	r.Rule("observers", "methods that formatting calls implicitly (String, Error, …) leave the value unchanged", 1)
 	observerRule(w, r, "observers", "openflow13")
 	r.Rule("stateless", "the range helpers depend on no package-level state that a call can change and hand out no shared object", 8)
